@@ -168,6 +168,8 @@ def check(run):
     # ---- single injected faults: trace the library's libc-boundary calls of one call, then fail each position
     fault_cfgs = [c for c in syscfg if c[0].startswith("output:") or c[0] in ("ds:cgroup", "ds:rpname", "ds:domain", "ds:username", "ds:tty_username", "ds:cwd", "ds:hostname",
                                                                             "filter:exclude_spawns_of:0,1,sh,python3", "ident-template", "file-template")]
+    if not quick:
+        fault_cfgs = syscfg + gencfg[:80]
     if quick:
         fault_cfgs = [c for i, c in enumerate(fault_cfgs) if i % 3 == 0 or c[0] in ("output:socket:@D@/s.sock", "output:file:@D@/a.log", "output:devlog", "ds:rpname", "ds:cgroup")]
 
@@ -203,7 +205,7 @@ def check(run):
         sites[v] |= st
         nsamples += n
         nruns += 1
-        distinct.add((label.split(":", 1)[-1] if label.startswith("gen-") else label, v, fault))
+        distinct.add((ini, v, fault))
         if fault:
             faults_fired += 1
         for (sig, detail, extra) in finds:
